@@ -17,6 +17,7 @@ import (
 
 	"verif/harness/core"
 	"verif/harness/gen"
+	"verif/harness/run"
 )
 
 func init() {
@@ -518,6 +519,9 @@ func runC18(c *core.Ctx) {
 			}
 		})
 	})
+	if !c.InChild() {
+		c18CommandGoroutines(c)
+	}
 	// race reports of the child process
 	files, _ := filepath.Glob(raceGlob)
 	reports := 0
@@ -548,6 +552,65 @@ func runC18(c *core.Ctx) {
 	c.Count("race_log_files", len(files))
 	if !raceEnabled {
 		c.Inconclusive("race-detector", "harness was not built with -race")
+	}
+}
+
+// c18CommandGoroutines: whatever a command of the program starts to read its files (producers of the
+// channel parser included) is gone when the command returns. The job server reports the number of
+// goroutines alive after every job; the same job is repeated and the count must not grow. Inputs: intact
+// files, a malformed log, a malformed book, both malformed (at the same place and at different places),
+// missing files.
+func c18CommandGoroutines(c *core.Ctx) {
+	srv, err := run.NewServer(c.HR, filepath.Join(c.Work, "goroutines"))
+	if err != nil {
+		c.Inconclusive("command-goroutines", err.Error())
+		return
+	}
+	defer srv.Close()
+	book := "a/b:\n  x: 2\n  y: 1\n\nd:\n  a/b: 2\n"
+	log := "2021/01/24:\n  a/b: 1\n  zz: 2\n\n2021/01/25:\n  d: 1.5\n  x: 1\n"
+	long := strings.Repeat("2021/01/26:\n  a/b: 1\n  x: 3\n", 3000)
+	worlds := []struct {
+		what  string
+		files map[string]string
+	}{
+		{"intact files", map[string]string{"food.yaml": book, "log.yaml": log}},
+		{"malformed log", map[string]string{"food.yaml": book, "log.yaml": log + "  broken\n"}},
+		{"malformed book", map[string]string{"food.yaml": "a/b:\n  broken\n" + book, "log.yaml": log}},
+		{"both files malformed on line 2", map[string]string{"food.yaml": "a/b:\n  broken\n" + book, "log.yaml": "2021/01/23:\n  broken\n" + log}},
+		{"book malformed on line 2, log malformed after 9000 good lines", map[string]string{"food.yaml": "a/b:\n  broken\n" + book, "log.yaml": long + "  broken\n"}},
+		{"log malformed on line 2, book malformed at its end", map[string]string{"food.yaml": book + "  broken\n", "log.yaml": "2021/01/23:\n  broken\n" + log}},
+		{"missing files", map[string]string{}},
+	}
+	r := c.Rng("goroutines", 0)
+	cmds := [][]string{{"stats"}, {"reg"}, {"bal"}, {"csv", "log"}, {"csv", "database"}, {"csv", "database-resolved"}, {"print"}, {"summary", "2021/01/24"}, {"report", "totals"}, {"report", "quantity"}, {"report", "unresolved"}, {"report", "element-total", "x"}, {"lint", "log.yaml"}, {"lint", "food.yaml"}}
+	for k := 0; k < 8; k++ {
+		cmds = append(cmds, randomCmd(r, "x", "a", "2021/01/24").Args)
+	}
+	for _, w := range worlds {
+		os.Remove(filepath.Join(srv.Dir, "food.yaml"))
+		os.Remove(filepath.Join(srv.Dir, "log.yaml"))
+		srv.Write(w.files)
+		for _, cmd := range cmds {
+			args := append([]string{"--no-color", "-d", "food.yaml", "-l", "log.yaml", "--today", "2021/02/01"}, cmd...)
+			res := srv.App1(args, nil)
+			first := srv.LastGor
+			if first == 0 {
+				c.Inconclusive("command-goroutines", "the job server does not report goroutine counts (older hook)")
+				return
+			}
+			for k := 0; k < 4; k++ {
+				srv.App1(args, nil)
+			}
+			last := srv.LastGor
+			c.Eval(5)
+			c.Count("command_goroutine_checks", 1)
+			c.Nontrivial("goroutines", w.what, joinArgs(cmd))
+			if last > first {
+				c.Violation(strings.Join(cmd[:min(2, len(cmd))], " ")+"|goroutines-left-behind", fmt.Sprintf("%s on %s: %d goroutines alive after the first run, %d after four more identical runs", joinArgs(cmd), w.what, first, last),
+					caseDoc{Files: w.files, Args: args, Note: w.what, Observed: map[string]any{"goroutines_after_first_run": first, "goroutines_after_fifth_run": last, "exit": res.Exit, "err": res.Err}})
+			}
+		}
 	}
 }
 
